@@ -597,4 +597,8 @@ def run(chk):
     chk.step("stored object identity", spec_vector_set_object_identity, chk)
     chk.step("new_child", spec_new_child, chk)
     from .c01_parts import spec_apply_scheme
-    chk.step("fresh frame per call", spec_apply_scheme, chk, "", ("fresh",))
+    chk.step("fresh frame per call", spec_apply_scheme, chk, "", ("fresh", "bind"))
+    # a definition binds, in the frame it is evaluated in, the very value its initialiser produced (no copy, no change of
+    # mutability, no assignment to an outer binding of the same name) - the unit of C01
+    from .c01_parts import spec_definition
+    chk.step("definitions", spec_definition, chk)
